@@ -336,4 +336,63 @@ example : colorCodes G gsp .d4 [] [] [] "fe0101".toList false = ([91], "ansibrig
     colorCodes G gsp .d4 "fe0101".toList "ff0000".toList "ansibrightred".toList "ff0000".toList true
       = ([41], "ansibrightred".toList) := by decide +kernel
 
+/-! ## 4. what the lower depths decode to -/
+
+theorem gen_ansi16Ok : Ansi16Ok G := by decide +kernel
+
+/-- the decoder's 256-colour table (ansi.py) is the encoder's palette (vt100.py) spelled '#rrggbb' -/
+theorem gen_dec256 : ∀ ip ∈ enumFrom 0 G.pal256,
+    lookup ip.1 G.dec256 = some ('#' :: (hex02 ip.2.1 ++ hex02 ip.2.2.1 ++ hex02 ip.2.2.2)) := by
+  have h : ((enumFrom 0 G.pal256).all fun ip =>
+      lookup ip.1 G.dec256 == some ('#' :: (hex02 ip.2.1 ++ hex02 ip.2.2.1 ++ hex02 ip.2.2.2))) = true := by
+    decide +kernel
+  intro ip hip
+  exact eq_of_beq (List.all_eq_true.mp h ip hip)
+
+/-- **C19-n (8-bit depth decodes to the nearest palette colour).**  For valid attributes the 8-bit
+    escape parameters decode to the same flags and named colours; an RGB colour comes back as the
+    '#rrggbb' spelling of a palette colour that is nearest to it (C19-e). -/
+theorem decode_8bit (a : Attrs) (hv : ValidAttrs G a) (st0 : Sgr) :
+    selectGraphicRendition G st0 (0 :: sgrCodes G gsp .d8 a) = sgrOf8 G a :=
+  sgr_decode_8bit G gen_encDecOk gsp gen_spOk a hv st0
+
+theorem decoded_8bit_colour_is_nearest (c : Text) (hh : IsHex6 c) :
+    ∃ pm, decColor8 G c = some ('#' :: (hex02 pm.1 ++ hex02 pm.2.1 ++ hex02 pm.2.2)) ∧ pm ∈ G.pal256 ∧
+      ∀ j p, 16 ≤ j → G.pal256[j]? = some p → dist (hexRgb c) pm ≤ dist (hexRgb c) p := by
+  obtain ⟨pm, h1, _, _, h4, _⟩ := map256_is_nearest (hexRgb c) (hexRgb_inRange c)
+  refine ⟨pm, ?_, List.mem_of_getElem? h1, h4⟩
+  have hne : ¬(c = [] ∨ c = kwDefault) := by
+    rintro (h | h)
+    · subst h; simp [IsHex6] at hh
+    · exact default_not_hex6 (h ▸ hh)
+  have hnn : c ∉ G.ansiNames := fun hn => (gen_encDecOk.names c hn).2 hh
+  unfold decColor8
+  rw [if_neg hne, if_neg hnn]
+  generalize closest256 G.pal256 (hexRgb c) = m at h1 ⊢
+  have hmem : (m, pm) ∈ enumFrom 0 G.pal256 := mem_enumFrom_zero.mpr h1
+  have := gen_dec256 (m, pm) hmem
+  exact this
+
+example : sgrOf8 G sampleAttrs =
+    { color := some "#ff8700".toList, bgcolor := some "ansiblue".toList, bold := true, italic := true } := by
+  decide +kernel
+
+/-- **C19-o (4-bit and 1-bit depth decoded).**  At 4 bit an RGB colour comes back as the ANSI name
+    chosen by the 16-colour map (C19-g; for the background the name chosen for an RGB foreground is
+    excluded unless both colour strings are equal); at 1 bit only the flags survive. -/
+theorem decode_4bit (a : Attrs) (hv : ValidAttrs G a) (st0 : Sgr) :
+    selectGraphicRendition G st0 (0 :: sgrCodes G gsp .d4 a) = sgrOf4 G a :=
+  sgr_decode_4bit G gen_encDecOk gen_ansi16Ok gsp gen_spOk a hv st0
+
+theorem decode_1bit (a : Attrs) (st0 : Sgr) :
+    selectGraphicRendition G st0 (0 :: sgrCodes G gsp .d1 a) =
+      { color := none, bgcolor := none, bold := truthy a.bold, underline := truthy a.underline,
+        strike := truthy a.strike, italic := truthy a.italic, blink := truthy a.blink,
+        reverse := truthy a.reverse, hidden := truthy a.hidden } :=
+  sgr_decode_1bit G gen_encDecOk gsp a st0
+
+example : sgrOf4 G { sampleAttrs with bgcolor := some "ff8001".toList } =
+    { color := some "ansiyellow".toList, bgcolor := some "ansibrightyellow".toList, bold := true, italic := true } := by
+  decide +kernel
+
 end Ptk.C19
